@@ -33,6 +33,8 @@ def _ok(r):
 
 
 BAD = "TExpr (XBad ESyntax)"
+DEEP = 1500  # nesting depth of the deep pieces: more than CPython's recursion limit
+DEEPBAD = "TExpr (XBad EContextDepth)"
 
 
 def _var(txt, n):
@@ -159,6 +161,13 @@ PIECES = [
     Piece("plural", "{% plural %}", [_tag("Nplural")]),
     Piece("endtranslate", "{% endtranslate %}", [_tag("Nendtranslate")]),
     Piece("noname", "{% %}", [_tag("Nnoname")]),
+    # ---- when lists with a rejected later alternative; expressions nested deeper than the Python stack
+    Piece("when-tail-strictonly", "{% when 2, w. %}", lambda d: [_tag("Nwhen"), f"TExpr (XStrictOnly {_val('', int(DATAS[d]['w'] == 2) + 1)})"], strict_only=True),
+    Piece("when-tail-bad", "{% when 1, | %}", lambda d: [_tag("Nwhen"), f"TExpr (XTailBad {_val('', int(DATAS[d]['w'] == 1))})"]),
+    Piece("out-deep", "{{ o" + "[" * DEEP + " }}", ["TOutput", DEEPBAD]),
+    Piece("if-deep", "{% if o " + "and o " * DEEP + "%}", [_tag("Nif"), DEEPBAD]),
+    Piece("elsif-deep", "{% elsif o " + "and o " * DEEP + "%}", [_tag("Nelsif"), DEEPBAD]),
+    Piece("for-deep", "{% for i in " + "(1.." * DEEP + "2" + ")" * DEEP + " %}", [_tag("Nfor"), DEEPBAD]),
 ]
 IDX = {p.name: i for i, p in enumerate(PIECES)}
 
@@ -179,6 +188,9 @@ EXT16 = ["text", "out", "macro", "endmacro", "call", "include", "block", "block-
 EXT22 = EXT16 + ["plural", "noname", "for", "endfor", "break", "out-rerr"]
 MIX8 = ["text", "macro", "endmacro", "call", "extends", "block", "endblock", "increment"]
 MIX12 = MIX8 + ["comment-open", "endcomment", "ifchanged", "endifchanged"]
+DEEP9 = ["text", "if", "elsif", "else", "endif", "out-deep", "if-deep", "elsif-deep", "for-deep"]
+WHEN8 = ["text", "case", "when", "when-tail-strictonly", "when-tail-bad", "else", "endcase", "out-rerr"]
+WHEN6 = ["text", "case", "when", "when-tail-strictonly", "when-tail-bad", "endcase"]
 
 
 def source(ps) -> str:
@@ -353,14 +365,16 @@ GROUP = 4200  # sources per group (one Coq string comparison each)
 
 def gen_groups(ck: Check):
     """Groups of (limit, layer label, Gallina term for the list of piece sequences, the sequences)."""
-    allp = list(range(len(PIECES)))
+    deep = {i for i, p in enumerate(PIECES) if p.name.endswith("-deep")}  # a stack overflow costs ~50 ms: few of those
+    allp = [i for i in range(len(PIECES)) if i not in deep]
     if ck.quick:
-        layers = [(allp, 2, 30), (CORE20, 3, 30), (CORE12, 3, 30), (CORE8, 4, 30), (CORE7, 4, 30), (CORE9, 3, 1),
-                  (STD16, 3, 30), (EXT16, 3, 30), (MIX8, 4, 30), (STD16, 2, 1)]
+        layers = [(allp, 2, 30), (CORE20, 3, 30), (CORE12, 3, 30), (CORE7, 4, 30), (CORE9, 3, 1),
+                  (STD16, 3, 30), (EXT16, 3, 30), (MIX8, 3, 30), (STD16, 2, 1), (DEEP9, 2, 30), (WHEN6, 4, 30)]
         nrand = 1200
     else:
         layers = [(allp, 2, 30), (CORE20, 4, 30), (CORE12, 5, 30), (CORE7, 6, 30), (CORE12, 4, 1), (CORE9, 5, 1),
-                  (STD25, 3, 30), (STD16, 4, 30), (EXT22, 3, 30), (EXT16, 4, 30), (MIX12, 4, 30), (MIX8, 5, 30), (STD16, 3, 1), (EXT16, 3, 1)]
+                  (STD25, 3, 30), (STD16, 4, 30), (EXT22, 3, 30), (EXT16, 4, 30), (MIX12, 4, 30), (MIX8, 5, 30), (STD16, 3, 1), (EXT16, 3, 1),
+                  (DEEP9, 3, 30), (WHEN8, 5, 30), (CORE8, 5, 30)]
         nrand = 20000
     for alpha, n, lim in layers:
         ids = [a if isinstance(a, int) else IDX[a] for a in alpha]
@@ -374,7 +388,7 @@ def gen_groups(ck: Check):
                 term = f"map (app [{'; '.join(map(str, pre))}]) (seqs {g_ids} {k - j})" if j else f"seqs {g_ids} {k}"
                 yield lim, f"exhaustive.alphabet{len(ids)}.len{k}.limit{lim}", term, seqs
     rng = ck.rng
-    weights = [6 if p.name in ("text", "if", "endif", "for", "endfor", "else", "elsif") else 1 for p in PIECES]
+    weights = [6 if PIECES[i].name in ("text", "if", "endif", "for", "endfor", "else", "elsif") else 1 for i in allp]
     for lim in (30, 1, 2):
         seqs = [tuple(rng.choices(allp, weights=weights, k=rng.randrange(5, 11))) for _ in range(nrand // 3)]
         for lo in range(0, len(seqs), GROUP):
@@ -475,7 +489,7 @@ def run(ck: Check) -> None:
     t1 = time.time()
     pre = preamble()
     coq_cases, coq_exp = [], []
-    reported = 0
+    per_kind: dict = {}
     pos = 0
     starts = []
     for lim, layer, term, seqs in groups:
@@ -488,12 +502,13 @@ def run(ck: Check) -> None:
             ck.note_case((ps, lim), nontrivial=any(o[0] != "out" or o[2] for o in obs.values()))
             for kind, detail in oracle(ps, obs):
                 ck.count("oracle." + kind)
-                if reported < 12:
-                    reported += 1
+                per_kind[kind] = per_kind.get(kind, 0) + 1
+                if per_kind[kind] <= 3:  # a few failing inputs of every kind of failure
                     names = [PIECES[p].name for p in ps]
+                    src = source(ps)
                     ck.violation("impl-violation", f"{kind}:{'+'.join(names)}:limit{lim}",
-                                 f"{kind} on {source(ps)!r} (block_nesting_limit={lim}): {detail}",
-                                 {"type": "modes", "pieces": list(ps), "limit": lim, "template": source(ps), "kind": kind, "detail": detail})
+                                 f"{kind} on {src[:300]!r}{'...' if len(src) > 300 else ''} (block_nesting_limit={lim}): {detail}",
+                                 {"type": "modes", "pieces": list(ps), "limit": lim, "template": src, "kind": kind, "detail": detail})
             for m in MODES:
                 for d in (0, 1):
                     o = obs[(m, d, False)]
